@@ -20,6 +20,7 @@ mod c06;
 mod c07;
 mod c08;
 mod c05b;
+mod c05c;
 mod c05;
 mod c10;
 mod c12;
@@ -52,6 +53,7 @@ fn main() {
     all.extend(c07::witnesses());
     all.extend(c08::witnesses());
     all.extend(c05b::witnesses());
+    all.extend(c05c::witnesses());
     all.extend(c05::witnesses());
     all.extend(c10::witnesses());
     all.extend(c12::witnesses());
